@@ -204,7 +204,9 @@ func (vc *VC) havocAll(st *State, ghosts bool) {
 	if !ghosts {
 		// materialise ghosts so that they survive the epoch change
 		for _, g := range vc.db.GhostList {
-			keep["g:"+g] = vc.get(st, "g:"+g)
+			if _, ok := vc.varSort["g:"+g]; ok {
+				keep["g:"+g] = vc.get(st, "g:"+g)
+			}
 		}
 	}
 	st.vars = keep
